@@ -34,6 +34,8 @@ fn main() {
     let mut trace = false;
     let mut adversary: Option<String> = None;
     let mut budget = 0usize;
+    let mut freeze = 0usize;
+    let mut subject = 0usize;
     let mut pres: HashMap<usize, String> = HashMap::new();
     for line in text.lines() {
         let w: Vec<&str> = line.split_whitespace().collect();
@@ -52,6 +54,12 @@ fn main() {
             "schedule" => schedule.extend(w[1..].iter().map(|x| x.parse::<i64>().unwrap())),
             "trace" => trace = true,
             "adversary" => adversary = Some(w[1].to_string()),
+            "freeze" => {
+                for x in &w[1..] {
+                    freeze |= 1usize << x.parse::<usize>().unwrap();
+                }
+            }
+            "subject" => subject = w[1].parse().unwrap(),
             "budget" => budget = w[1].parse().unwrap(),
             "pre" => {
                 pres.insert(w[1].parse().unwrap(), w[2].to_string());
@@ -129,7 +137,12 @@ fn main() {
         let n = entries.len();
         let turn = std::sync::Arc::new(std::sync::atomic::AtomicUsize::new(1));
         let barrier = std::sync::Arc::new(std::sync::Barrier::new(n));
+        let exits = 0; // threads that announce their own exit do not wait at the end barrier
+        let _ = exits;
         let end_barrier = std::sync::Arc::new(std::sync::Barrier::new(n));
+        let frozen_mode = freeze != 0;
+        native::FREEZE.store(freeze, std::sync::atomic::Ordering::SeqCst);
+        let done_flags: &'static [std::sync::atomic::AtomicBool; 8] = Box::leak(Box::new(Default::default()));
         for (i, e) in entries.into_iter().enumerate() {
             let f = lookup(&e);
             let id = i as i64 + 1;
@@ -149,11 +162,33 @@ fn main() {
                 barrier.wait();
                 native::set_my_id(id);
                 let r = std::panic::catch_unwind(|| f());
+                if native::EXIT_NOW.with(|e| e.get()) {
+                    // the body announced the exit of this thread: leave now, still gated, so that the
+                    // thread-local destructors run as part of the schedule
+                    done_flags[id as usize].store(true, std::sync::atomic::Ordering::SeqCst);
+                    return r.is_ok();
+                }
                 native::set_my_id(-1);
+                done_flags[id as usize].store(true, std::sync::atomic::Ordering::SeqCst);
                 // no thread exits (and runs its thread-local destructors) before all bodies are done
-                end_barrier.wait();
+                if !frozen_mode {
+                    end_barrier.wait();
+                }
                 r.is_ok()
             }));
+        }
+        if frozen_mode {
+            // the others are suspended for ever; the subject has to finish on its own
+            let start = std::time::Instant::now();
+            while !done_flags[subject].load(std::sync::atomic::Ordering::SeqCst) {
+                if start.elapsed() > std::time::Duration::from_secs(10) {
+                    println!("HANG thread={} did not finish alone within 10 s while the others were suspended", subject);
+                    std::process::exit(8);
+                }
+                std::thread::sleep(std::time::Duration::from_millis(20));
+            }
+            println!("DONE ok=true assert_failed={} steps={} (subject finished alone)", native::failed(), native::STEPS.load(std::sync::atomic::Ordering::SeqCst));
+            std::process::exit(if native::failed() { 1 } else { 0 });
         }
         for h in hs {
             ok &= h.join().unwrap_or(false);
